@@ -3,13 +3,19 @@
 #include "v.h"
 #include "visa.h"
 #include "refgf.h"
-#include "gen_syms.h"
+#include "cpusim.h"
 #include "erasure_code.h"
 #include "gf_vect_mul.h"
 
 #define X(s, n, isa) extern char ksym_##s[] __asm__(#s);
-V_INITTBL_LIST(X)
+V_INITTBL_LIST(X) V_GFMUL_LIST(X)
 #undef X
+typedef int (*fn_mul)(int, unsigned char *, void *, void *);
+static struct { const char *name; fn_mul fn; const char *isa; } mulv[] = {
+#define X(s, n, isa) { #s, (fn_mul) ksym_##s, isa },
+	V_GFMUL_LIST(X)
+#undef X
+};
 typedef void (*fn_init)(int, int, unsigned char *, unsigned char *);
 static fn_init init_base, init_gfni;
 static long long evals;
@@ -51,6 +57,15 @@ static void run_C12(void)
 		for (int i = 0; i < 16; i++) { evals += 2;
 			if (t[i] != refgf_mul(c, i) || t[16 + i] != refgf_mul(c, i << 4)) { snprintf(key, sizeof key, "gf_vect_mul_init:%s", V_BUILD_TAG); v_viol(key, "c=%02x entry %d: lo %02x hi %02x", c, i, t[i], t[16 + i]); } }
 		for (int x = 0; x < 256; x++) { evals++; if ((t[x & 15] ^ t[16 + (x >> 4)]) != refgf_mul(c, x)) { snprintf(key, sizeof key, "table-product:%s", V_BUILD_TAG); v_viol(key, "c=%02x x=%02x", c, x); } }
+	}
+	/* the table-driven product routines themselves: every gf_vect_mul variant, every constant, every byte value */
+	for (unsigned vi = 0; vi < sizeof mulv / sizeof mulv[0]; vi++) {
+		if (v_isa_ok(mulv[vi].isa) != 1) continue;
+		static uint8_t src[256] __attribute__((aligned(64))), dst[256] __attribute__((aligned(64))), t[32]; for (int x = 0; x < 256; x++) src[x] = (uint8_t) x;
+		for (int c = 0; c < 256; c++) { gf_vect_mul_init((uint8_t) c, t); memset(dst, 0x5a, 256); int rc = mulv[vi].fn(256, t, src, dst); evals += 256;
+			for (int x = 0; x < 256 && !rc; x++) if (dst[x] != refgf_mul(c, x)) { snprintf(key, sizeof key, "table-product:%s:%s", mulv[vi].name, V_BUILD_TAG); v_viol(key, "c=%02x x=%02x got %02x want %02x", c, x, dst[x], refgf_mul(c, x)); break; }
+			if (rc) { snprintf(key, sizeof key, "table-product:%s:%s", mulv[vi].name, V_BUILD_TAG); v_viol(key, "returned %d for len 256", rc); } }
+		v_set("gf_vect_mul_variants_exhausted", mulv[vi].name);
 	}
 	/* ec_init_tables over matrices (all 256 constants appear, random shapes) */
 	for (int it = 0; it < 40; it++) {
@@ -234,6 +249,16 @@ static void run_C09(void)
 		uint8_t alive[256]; memset(alive, 1, m); int nl = m - k; for (int e = 0; e < nl; e++) { int x; do x = vrn(&r, m); while (!alive[x]); alive[x] = 0; }
 		pipeline(idx, cauchy, m, k, alive, len, "sampled");
 	}
+	/* the recovery pipeline through whichever encode implementation each CPU level's resolver selects */
+	if (V_NDISPATCHED > 0) for (int l = 0; l < CPUSIM_NNAMED; l++) {
+		const cpucfg *c = &cpusim_named[l]; if (!cpusim_host_can(c)) continue; cpusim_apply(c); v_set("cpu_levels", c->name);
+		long nl2 = (long) ((vopt.thorough ? 1500 : 90) * vopt.scale);
+		for (long q = 0; q < nl2; q++) { long idx = 5000000 + l * 100000l + q; if (!v_mine(idx)) continue; vrng r; vr_seed(&r, vopt.seed, 45, idx);
+			int cauchy = vrn(&r, 4) != 0, m, k; if (cauchy) { int p = 1 + vrn(&r, 14); k = 1 + vrn(&r, 20); m = k + p; } else { static const int mk[][2] = { {9, 3}, {12, 2}, {25, 4}, {10, 5}, {25, 21}, {16, 13}, {24, 20}, {8, 1} }; int w = vrn(&r, 8); m = mk[w][0]; k = mk[w][1]; }
+			int len = vrn(&r, 4) ? vrr(&r, 1, 140) : vrr(&r, 0, 300); gen_matrix(cauchy, enc, m, k); make_blocks(&r, m, k, len);
+			uint8_t alive[256]; memset(alive, 1, m); for (int e = 0; e < m - k; e++) { int x; do x = vrn(&r, m); while (!alive[x]); alive[x] = 0; }
+			pipeline(idx, cauchy, m, k, alive, len, c->name); }
+	}
 	v_stat("inversions", n_inv); v_stat("singular_inputs", n_sing); v_stat("survivor_patterns", n_patterns); v_stat("minors", n_minors); v_stat("recoveries_via_ec_encode_data", n_pipeline);
 }
 
@@ -241,6 +266,7 @@ int main(int argc, char **argv)
 {
 	v_init(argc, argv);
 	if (refgf_init()) v_harness_fail("refgf self-test failed");
+	if (V_NDISPATCHED > 0) cpusim_init();
 	for (int i = 0; i < 256; i++) { blkp[i] = blk[i]; }
 #define X(s, n, isa) if (!strcmp(#s, "ec_init_tables_base")) init_base = (fn_init) ksym_##s; if (!strcmp(#s, "ec_init_tables_gfni")) init_gfni = (fn_init) ksym_##s;
 	V_INITTBL_LIST(X)
